@@ -2,6 +2,7 @@ from __future__ import annotations
 
 import ast
 import enum
+import re
 import sys
 from collections.abc import Callable
 from typing import TYPE_CHECKING, Any, ClassVar, Literal, NoReturn, TypeVar, cast
@@ -583,7 +584,96 @@ class Parser:
         path_tok = self._strip_path_prefix(a)
         if path_tok:
             self._path_token = path_tok
-        return ast.JoinedStr(values=b, **locs)
+        prefix = a.string.rstrip("'\"").lower()
+        return ast.JoinedStr(values=self._fstring_values(b, raw="r" in prefix, in_spec=False), **locs)
+
+    def fstring_field(
+        self,
+        value: ast.expr,
+        debug: TokenInfo | None,
+        conversion: int | None,
+        format_spec: ast.JoinedStr | None,
+        **locs: int,
+    ) -> ast.FormattedValue:
+        """A replacement field; for '{expr=}' the expression's source text is kept for the f-string."""
+        if not conversion:
+            conversion = b"r"[0] if debug and format_spec is None else -1
+        node = ast.FormattedValue(value=value, conversion=conversion, format_spec=format_spec, **locs)
+        if debug:
+            # from just after '{' up to and including '=' and the blanks that follow it
+            (l1, c1), (l2, c2) = (locs["lineno"], locs["col_offset"] + 1), debug.end
+            lines = self._tokenizer.get_lines(list(range(l1, l2 + 1)))
+            while lines[-1][c2 : c2 + 1] in (" ", "\t", "\f") and lines[-1][c2 : c2 + 1]:
+                c2 += 1
+            lines[-1] = lines[-1][:c2]
+            lines[0] = lines[0][c1:]
+            text = ast.Constant(value="".join(lines), lineno=l1, col_offset=c1, end_lineno=l2, end_col_offset=c2)
+            node.debug_text = text  # type: ignore[attr-defined]  # consumed by _fstring_values
+        return node
+
+    _FSTRING_ESCAPE = re.compile(
+        r"\\(?:N\{[^}]*\}|x[0-9a-fA-F]{2}|u[0-9a-fA-F]{4}|U[0-9a-fA-F]{8}|[0-7]{1,3}|\r?\n|.)", re.DOTALL
+    )
+
+    def _fstring_text(self, node: ast.Constant, raw: bool, in_spec: bool) -> str:
+        """The value of a literal part of an f-string: doubled braces and escapes decoded."""
+        text = node.value.replace("\r\n", "\n")
+        if not in_spec:
+            text = text.replace("{{", "{").replace("}}", "}")
+        if raw or "\\" not in text:
+            return text
+
+        def decode(m: re.Match[str]) -> str:
+            try:
+                return cast(str, ast.literal_eval('"' + m.group(0) + '"'))
+            except SyntaxError as e:
+                self.raise_syntax_error_known_location(e.msg, node)
+
+        return self._FSTRING_ESCAPE.sub(decode, text)
+
+    def _fstring_values(
+        self, parts: list[ast.FormattedValue | ast.Constant], raw: bool, in_spec: bool
+    ) -> list[ast.FormattedValue | ast.Constant]:
+        """Decode the literal parts (also inside format specs) and merge adjacent constants.
+
+        New nodes are built, the parts themselves are left untouched.
+        """
+        values: list[ast.FormattedValue | ast.Constant] = []
+        for part in parts:
+            locs = {k: getattr(part, k) for k in ("lineno", "col_offset", "end_lineno", "end_col_offset")}
+            new: ast.FormattedValue | ast.Constant
+            if isinstance(part, ast.Constant):
+                new = ast.Constant(value=self._fstring_text(part, raw, in_spec), **locs)
+            elif part.format_spec is not None:
+                spec = cast(ast.JoinedStr, part.format_spec)
+                spec_locs = {k: getattr(spec, k) for k in ("lineno", "col_offset", "end_lineno", "end_col_offset")}
+                new = ast.FormattedValue(
+                    value=part.value,
+                    conversion=part.conversion,
+                    format_spec=ast.JoinedStr(values=self._fstring_values(spec.values, raw, True), **spec_locs),
+                    **locs,
+                )
+            else:
+                new = part
+            debug_text = getattr(part, "debug_text", None)
+            if debug_text is not None:  # escapes in the quoted expression text are decoded as well
+                debug_text = ast.Constant(
+                    value=self._fstring_text(debug_text, raw, in_spec=True),
+                    **{k: getattr(debug_text, k) for k in ("lineno", "col_offset", "end_lineno", "end_col_offset")},
+                )
+            for item in (debug_text, new) if debug_text is not None else (new,):
+                if values and isinstance(values[-1], ast.Constant) and isinstance(item, ast.Constant):
+                    last = values[-1]
+                    values[-1] = ast.Constant(
+                        value=last.value + item.value,
+                        lineno=last.lineno,
+                        col_offset=last.col_offset,
+                        end_lineno=item.end_lineno,
+                        end_col_offset=item.end_col_offset,
+                    )
+                else:
+                    values.append(item)
+        return values
 
     @staticmethod
     def _strip_path_prefix(token: TokenInfo | ast.expr) -> TokenInfo | None:
